@@ -547,7 +547,11 @@ def _transport_status(ctx):
             ctx.evals()
             ctx.trace()
             raw = (f'HTTP/1.1 {status} X\r\nContent-Length: {len(body)}\r\nContent-Type: application/soap+xml\r\n\r\n').encode() + body
-            client = SoapClient('10.0.1.1:7001', 1, loghelper.get_logger_adapter('verif.c08'), None, None, None,
+            from sdc11073.definitions_sdc import SdcV1Definitions
+            from sdc11073.pysoap.msgreader import MessageReader
+            log = loghelper.get_logger_adapter('verif.c08')
+            client = SoapClient('10.0.1.1:7001', 1, log, None, SdcV1Definitions,
+                                MessageReader(SdcV1Definitions, None, log, validate=False),
                                 supported_encodings=[], request_encodings=[])
 
             class Conn:
